@@ -152,7 +152,27 @@ impl Wal {
 		let sync_fd = Arc::new(file.try_clone()?);
 
 		// Get file size from the opened file handle
-		let existing_size = file.metadata()?.len();
+		let mut existing_size = file.metadata()?.len();
+
+		// A crash can leave a partial record at the end of the segment. Readers stop
+		// there and treat it as the end of the log, so anything appended behind it would
+		// never be read back. Cut the segment to the end of its last complete record
+		// before appending. (Damage that readers report as corruption is left alone:
+		// that is for the repair / recovery-mode logic to decide.)
+		if existing_size > 0 {
+			if let Some(valid_len) = Self::readable_prefix_len(&file_path) {
+				if valid_len < existing_size {
+					log::warn!(
+						"WAL segment {}: dropping {} trailing bytes of an incomplete record before appending",
+						file_name,
+						existing_size - valid_len
+					);
+					file.set_len(valid_len)?;
+					file.sync_all()?;
+					existing_size = valid_len;
+				}
+			}
+		}
 
 		if existing_size > 0 {
 			// Existing file: detect the compression type from the file itself.
@@ -187,6 +207,21 @@ impl Wal {
 	/// Reads the first record's header. If it's a SetCompressionType record,
 	/// parses and returns that compression type. Otherwise returns None (no
 	/// compression).
+	/// Length of the prefix of a segment that a reader accepts up to a clean end of log.
+	/// `None` if the reader stops for any other reason (corruption, I/O error).
+	fn readable_prefix_len(file_path: &Path) -> Option<u64> {
+		let file = File::open(file_path).ok()?;
+		let mut reader = super::reader::Reader::new(file);
+		let mut end: u64 = 0;
+		loop {
+			match reader.read() {
+				Ok((_, offset)) => end = offset,
+				Err(Error::IO(e)) if e.kind() == io::ErrorKind::UnexpectedEof => return Some(end),
+				Err(_) => return None,
+			}
+		}
+	}
+
 	fn detect_compression_type(file_path: &Path) -> Result<CompressionType> {
 		let mut file = File::open(file_path)?;
 
